@@ -305,6 +305,26 @@ func termVars(t *Term) map[int]bool {
 	return m
 }
 
+// axiomDefines: a definitional axiom (what sqrt / sin / cos / acos ... of some
+// argument is, or that two applications agree on equal arguments) is only of
+// use once the value it defines is mentioned: term id -> ids of those values.
+var axiomDefines = map[int][]int{}
+
+func registerDef(ax *Term, results ...*Term) {
+	if ax == nil || len(ax.args) == 0 {
+		return
+	}
+	var ids []int
+	for _, r := range results {
+		if r != nil && len(r.args) == 0 && !r.isConst() {
+			ids = append(ids, r.id)
+		}
+	}
+	if len(ids) > 0 {
+		axiomDefines[ax.id] = ids
+	}
+}
+
 // relevant keeps the assumptions connected (through shared variables) to the goal.
 func relevant(assume []*Term, goal *Term) []*Term {
 	seed := map[int]bool{}
@@ -321,10 +341,19 @@ func relevant(assume []*Term, goal *Term) []*Term {
 			}
 			vs := termVars(a)
 			hit := len(vs) == 0
-			for k := range vs {
-				if seed[k] {
-					hit = true
-					break
+			if defs, isDef := axiomDefines[a.id]; isDef {
+				for _, d := range defs {
+					if seed[d] {
+						hit = true
+						break
+					}
+				}
+			} else {
+				for k := range vs {
+					if seed[k] {
+						hit = true
+						break
+					}
 				}
 			}
 			if hit {
@@ -353,6 +382,7 @@ func solveAll(obls []*Obligation, outDir string, timeout time.Duration, all bool
 		o       *Obligation
 		asserts []*Term
 		file    string
+		full    []*Term // all hypotheses, when the relevance filter dropped some
 	}
 	var jobs []job
 	for i, o := range obls {
@@ -377,7 +407,11 @@ func solveAll(obls []*Obligation, outDir string, timeout time.Duration, all bool
 			o.res = Result{status: "sat", backend: "simplifier", model: map[string]string{}}
 			continue
 		}
-		jobs = append(jobs, job{o, asserts, filepath.Join(outDir, sanitize(o.name)+fmt.Sprintf("_%d.smt2", i))})
+		jb := job{o: o, asserts: asserts, file: filepath.Join(outDir, sanitize(o.name)+fmt.Sprintf("_%d.smt2", i))}
+		if !o.expectSat && len(asserts) < len(o.assume)+1 {
+			jb.full = append(append([]*Term{}, o.assume...), mkNot(o.goal))
+		}
+		jobs = append(jobs, jb)
 	}
 	for _, j := range jobs {
 		wg.Add(1)
@@ -386,6 +420,28 @@ func solveAll(obls []*Obligation, outDir string, timeout time.Duration, all bool
 			defer wg.Done()
 			defer func() { <-sem }()
 			j.o.res = solveQuery(j.asserts, []string{j.o.name, j.o.what}, j.file, timeout, all)
+			if j.o.res.status == "sat" && j.o.incomplete && !j.o.expectSat {
+				j.o.res.status = "unknown"
+				j.o.res.raw = "model not trusted: functional consistency of an uninterpreted function was left out (too many applications)"
+				j.o.res.model = nil
+			}
+			if j.o.res.status == "sat" && j.full != nil {
+				// a model of the filtered query is a counterexample only if the dropped hypotheses
+				// (e.g. the rest of the path condition) can be satisfied too: decide the full query
+				triv := false
+				for _, a := range j.full {
+					if a.isFalse() {
+						triv = true
+					}
+				}
+				if triv {
+					j.o.res = Result{status: "unsat", backend: "simplifier"}
+				} else {
+					first := j.o.res
+					j.o.res = solveQuery(j.full, []string{j.o.name + " (all hypotheses)", j.o.what}, strings.TrimSuffix(j.file, ".smt2")+"_full.smt2", timeout, all)
+					j.o.res.ms += first.ms
+				}
+			}
 		}(j)
 	}
 	wg.Wait()
